@@ -278,9 +278,17 @@ def run_lib(n, case, tm, tagging, scratch):
         orig_gen, orig_task = tm.generate_tasks, tagging.run_tagging_task
 
         def gen(*a, **kw):
-            jg = [list(map(list, job)) for job in kw['job_gen']]
-            captured['jobs'] = jg
-            kw['job_gen'] = [[tuple(t) for t in job] for job in jg]
+            # record the jobs while the implementation consumes them; the job list object is handed on as it is
+            # consumed (lazily when it is a generator), so this wrapper neither repairs nor causes exhaustion
+            src, rec = kw['job_gen'], []
+            captured['jobs'] = rec
+
+            def passthrough():
+                for job in src:
+                    job = list(job)
+                    rec.append([list(t) for t in job])
+                    yield job
+            kw['job_gen'] = passthrough()
             return orig_gen(*a, **kw)
 
         def task(alignments, output, **kw):
@@ -292,16 +300,32 @@ def run_lib(n, case, tm, tagging, scratch):
         tagging.run_tagging_task = task
         r = {}
         try:
+            # options that only concern bookkeeping and must not change the output: where the temporary files go, the
+            # job BED file (.bed / .bed.gz), ignore_bam_issues, the (unused) molecule_iterator argument
+            if run.get('nested_tmp'):
+                tmp = os.path.join(tmp, 'a', 'b.c')
+                os.makedirs(tmp, exist_ok=True)
+            bed = os.path.join(d, 'jobs%d.%s' % (k, run['job_bed'])) if run.get('job_bed') else None
             if run['mode'] == 'tiled':
                 tm.tag_multiome_multi_processing(
-                    input_bam_path=inp, out_bam_path=out, molecule_iterator=tm.MoleculeIterator,
+                    input_bam_path=inp, out_bam_path=out, molecule_iterator=(tm.MoleculeIterator if run.get('pass_iterator', True) else None),
                     molecule_iterator_args=nla_iterator_args(), fragment_size=run['fragment_size'],
                     bp_per_job=run['bp_per_job'], bp_per_segment=run['bp_per_segment'], temp_folder_root=tmp,
                     use_pool=run['use_pool'], one_contig_per_process=False, additional_args={'consensus_mode': None},
-                    n_threads=run['n_threads'])
+                    n_threads=run['n_threads'], job_bed_file=bed, ignore_bam_issues=bool(run.get('ignore_bam_issues')))
             else:
                 tm.run_multiome_tagging_cmd([inp, '-method', 'nla', '-o', out, '--multiprocess', '-tagthreads',
                                              str(run['n_threads']), '-temp_folder', tmp])
+                # (--ignore_bam_issues is not used on the command line: run_multiome_tagging opens the input with
+                #  ignore_truncation=True, threads=4, which pysam 0.24 refuses for serial and parallel runs alike)
+            if bed is not None:
+                import gzip
+                if os.path.exists(bed):
+                    with (gzip.open(bed, 'rt') if bed.endswith('.gz') else open(bed)) as fh:
+                        r['bed'] = [l.rstrip('\n').split('\t') for l in fh]
+                else:
+                    r['bed'] = None
+            r['tmp_left'] = sorted(os.listdir(tmp))
             par = canon(out) if os.path.exists(out) else {}
             r['out'] = {k: v[0] for k, v in par.items()}
             r['diff'] = diff(serial, par)[:12]
